@@ -472,6 +472,8 @@ def _coerce(v):
         return DM(v)
     if isinstance(v, (list, tuple, range)):
         return DM(v)
+    if hasattr(v, "toarray") and hasattr(v, "nnz"):        # scipy sparse matrix
+        return DM(_np.asarray(v.toarray()))
     if hasattr(v, "__casadi_model__"):
         return v.__casadi_model__()
     raise TypeError("cannot convert %r to a CasADi matrix" % (type(v),))
@@ -482,7 +484,12 @@ def _result_cls(*ms):
 
 
 def _binary(a, b, f, what="op"):
-    a, b = _coerce(a), _coerce(b)
+    try:
+        a, b = _coerce(a), _coerce(b)
+    except TypeError:
+        # operand of a foreign type (e.g. a BSpline): CasADi's operators return NotImplemented so that Python tries
+        # the other operand's reflected method (validated natively: MX + BSpline -> BSpline.__radd__)
+        return NotImplemented
     cls = _result_cls(a, b)
     if a.shape == b.shape:
         return cls._raw(a.rows, a.cols, [f(x, y) for x, y in zip(a.e, b.e)])
@@ -673,7 +680,11 @@ class Mat:
     def __rmatmul__(self, o): return mtimes(o, self)
 
     def _cmp(self, o, op, swap=False):
-        a, b = (_coerce(o), self) if swap else (self, _coerce(o))
+        try:
+            o = _coerce(o)
+        except TypeError:
+            return NotImplemented
+        a, b = (o, self) if swap else (self, o)
         r = _binary(a, b, lambda x, y: e_cmp(op, x, y), "(x%sy)" % op)
         r._deps = (a, b)
         r._op = op
@@ -877,6 +888,8 @@ class DM(Mat):
                 self.rows, self.cols, self.e = a.rows, a.cols, [1.0] * a.numel()
             elif isinstance(a, (list, tuple, range, _np.ndarray)):
                 self.rows, self.cols, self.e = _from_nested(a)
+            elif hasattr(a, "toarray") and hasattr(a, "nnz"):        # scipy sparse matrix
+                self.rows, self.cols, self.e = _from_nested(_np.asarray(a.toarray()))
             else:
                 self.rows, self.cols, self.e = 1, 1, [entry(a)]
         elif len(args) == 2 and isinstance(args[0], Sparsity):
@@ -1444,10 +1457,15 @@ def _subst_pairs(frm, to):
             if es is None:
                 raise RuntimeError("substitute: 'from' must be purely symbolic, got %r" % (f,))
         if t.shape != f.shape:
-            if t.numel() == 1:
+            # CasADi substitutes by calling Function(v, ex) on vdef: the call's argument rules apply
+            if t.numel() == 0:
+                t = MX._raw(f.rows, f.cols, [_Fr(0)] * f.numel())          # empty argument = zeros
+            elif t.numel() == 1:
                 t = repmat(t, f.rows, f.cols)
-            elif t.numel() == f.numel() and (t.is_vector() and f.is_vector()):
-                raise RuntimeError("substitute: dimension mismatch %s vs %s" % (f.shape, t.shape))
+            elif t.numel() == f.numel() and t.is_vector() and f.is_vector():
+                t = t.T                                                   # transposed vector accepted
+            elif f.numel() == 1 or (t.rows == f.rows and f.cols and t.cols % f.cols == 0):
+                raise Undecided("substitute with an evaluation-style (mapped / broadcast) replacement %s for %s" % (t.shape, f.shape))
             else:
                 raise RuntimeError("substitute: dimension mismatch %s vs %s" % (f.shape, t.shape))
         for x, y in zip(f.e, t.e):
@@ -1630,6 +1648,11 @@ def linear_coeff(*a): raise Undecided("linear_coeff")
 # ----------------------------------------------------------------------------------------
 # Function
 # ----------------------------------------------------------------------------------------
+# CasADi's operation codes (values as in CasADi 3.6)
+OP_ADD, OP_SUB, OP_MUL, OP_DIV, OP_NEG, OP_CONSTPOW, OP_SQ, OP_TWICE, OP_LT, OP_LE = 1, 2, 3, 4, 5, 9, 11, 12, 19, 20
+OP_CONST, OP_INPUT, OP_OUTPUT, OP_PARAMETER, OP_MTIMES = 44, 45, 46, 47, 52
+
+
 class Function:
     def __init__(self, name, ins, outs, *rest):
         self._name = name
@@ -1657,6 +1680,75 @@ class Function:
                 if n in self._in_names:
                     raise RuntimeError("Function %s: duplicate input symbol %s" % (name, n))
                 self._in_names.add(n)
+
+        if not (isinstance(self.opts, dict) and self.opts.get("allow_free")):
+            free = self.free_mx()
+            if free:
+                # MXFunction::init (validated natively): free symbols in the outputs are an error unless allow_free
+                raise RuntimeError("Error in Function::Function for '%s': Initialization failed since variables [%s] are free. "
+                                   "These symbols occur in the output expressions but you forgot to declare these as inputs." % (name, ", ".join(str(f._name) for f in free)))
+        self._prog = None
+
+    # ---- instruction-level view (used by casadi_helpers.reinterpret_expr) -----------------------------------
+    # A-CASADI-INSTR: the algorithm is SOME topologically sorted list of atomic operations that evaluates the outputs;
+    # the model emits CONST / INPUT / ADD / SUB / MUL / DIV / NEG / LE / LT / OUTPUT for all-scalar functions.
+    def _program(self):
+        if self._prog is not None:
+            return self._prog
+        if any(i.numel() != 1 for i in self.ins) or any(o.numel() != 1 for o in self.outs):
+            raise Undecided("instruction view of a Function with non-scalar inputs or outputs")
+        in_index = {i.e[0].decl().name(): k for k, i in enumerate(self.ins)}
+        prog, slot = [], {}
+        def new(op, ins, payload=None):
+            prog.append((op, [len(prog)], list(ins), payload))
+            return len(prog) - 1
+        def walk(t):
+            if isnum(t):
+                return new(OP_CONST, [], DM._raw(1, 1, [t]))
+            key = t.get_id()
+            if key in slot:
+                return slot[key]
+            k = t.decl().kind()
+            ch = t.children()
+            if z3.is_rational_value(t):
+                r = new(OP_CONST, [], DM._raw(1, 1, [_Fr(t.numerator_as_long(), t.denominator_as_long())]))
+            elif k == z3.Z3_OP_UNINTERPRETED and not ch:
+                n = t.decl().name()
+                if n in in_index:
+                    r = new(OP_INPUT, [in_index[n], 0])
+                else:
+                    raise Undecided("instruction view: numeric unknown / free symbol %s" % n)
+            elif k == z3.Z3_OP_UNINTERPRETED and t.decl().name() in ("__le", "__lt") and len(ch) == 2:
+                a_, b_ = walk(ch[0]), walk(ch[1])
+                r = new(OP_LE if t.decl().name() == "__le" else OP_LT, [a_, b_])
+            elif k in (z3.Z3_OP_ADD, z3.Z3_OP_MUL, z3.Z3_OP_SUB):
+                r = walk(ch[0])
+                for c_ in ch[1:]:
+                    r = new({z3.Z3_OP_ADD: OP_ADD, z3.Z3_OP_MUL: OP_MUL, z3.Z3_OP_SUB: OP_SUB}[k], [r, walk(c_)])
+            elif k == z3.Z3_OP_UMINUS:
+                r = new(OP_NEG, [walk(ch[0])])
+            elif k == z3.Z3_OP_DIV:
+                r = new(OP_DIV, [walk(ch[0]), walk(ch[1])])
+            else:
+                raise Undecided("instruction view: operation %s" % t.decl().name())
+            slot[key] = r
+            return r
+        for oi, o in enumerate(self.outs):
+            w = walk(o.e[0])
+            prog.append((OP_OUTPUT, [oi], [w], None))
+        self._prog = prog
+        return prog
+
+    def n_instructions(self): return len(self._program())
+    def sz_w(self): return len(self._program())
+    def instruction_id(self, k): return self._program()[k][0]
+    def instruction_output(self, k): return list(self._program()[k][1])
+    def instruction_input(self, k): return list(self._program()[k][2])
+    def instruction_MX(self, k):
+        pl = self._program()[k][3]
+        if pl is None:
+            raise RuntimeError("instruction_MX: not a constant / parameter instruction")
+        return MX(pl)
 
     def name(self): return self._name
     def n_in(self): return len(self.ins)
